@@ -69,7 +69,7 @@ type ledgerOp struct {
 	W  uint64 `json:"w,omitempty"`
 	A  string `json:"a,omitempty"`
 	Wl string `json:"wl,omitempty"`
-	K  int    `json:"k,omitempty"`  // handle of a split operation
+	K  string `json:"k,omitempty"`  // handle of a split operation
 	Id int    `json:"id,omitempty"` // model id of the vertex this op creates
 	// mutations for crafted vertices
 	Bad   string `json:"bad,omitempty"`   // "", "sig", "hash"
@@ -120,7 +120,7 @@ type world struct {
 	vtx      []accountant.Vertex // index = real world id - 1
 	vid      map[[32]byte]int
 	model2id map[int]int // model vertex id -> real world id
-	pending  map[int]*pendingOp
+	pending  map[string]*pendingOp
 	starting *pendingOp
 	out      *json.Encoder
 	nEvents  int
@@ -155,7 +155,7 @@ func newWorld(cfg ledgerCfg, out *json.Encoder) (*world, error) {
 		cfg: cfg, wallets: map[string]*wallet.Wallet{}, addrName: map[string]string{},
 		pub: map[string]ed25519.PublicKey{}, nodes: map[string]*node{},
 		trx: map[string]*transaction.Transaction{}, trxName: map[[32]byte]string{},
-		vid: map[[32]byte]int{}, model2id: map[int]int{}, pending: map[int]*pendingOp{},
+		vid: map[[32]byte]int{}, model2id: map[int]int{}, pending: map[string]*pendingOp{},
 		out: out, ctx: context.Background(),
 	}
 	u := melTotal(spice.Melange{Currency: cfg.Unit[0], SupplementaryCurrency: cfg.Unit[1]})
@@ -471,6 +471,8 @@ func (w *world) addVertex(v accountant.Vertex, modelID int) int {
 	return id
 }
 
+var errTipInvalid = errors.New("a tip failed validation")
+
 func classify(err error, pv any) string {
 	if pv != nil {
 		return "panic"
@@ -479,6 +481,8 @@ func classify(err error, pv any) string {
 		return "ok"
 	}
 	switch {
+	case err == errTipInvalid:
+		return "tipinvalid"
 	case errors.Is(err, accountant.ErrParentDoesNotExists):
 		return "parentmissing"
 	case errors.Is(err, accountant.ErrDagIsNotLoaded):
@@ -491,14 +495,15 @@ func classify(err error, pv any) string {
 		return "genesisissuer"
 	case errors.Is(err, accountant.ErrLeafAlreadyExists):
 		return "exists"
-	case errors.Is(err, accountant.ErrTrxInVertexAlreadyExists):
-		return "trxexists"
 	case errors.Is(err, accountant.ErrLeafRejected), errors.Is(err, accountant.ErrNewLeafRejected):
 		return "rejected"
 	case errors.Is(err, accountant.ErrGenesisRejected):
 		return "rejected"
 	case errors.Is(err, accountant.ErrUnexpected):
+		// under the lock a failed index insert is reported as ErrUnexpected joined with the cause
 		return "unexpected"
+	case errors.Is(err, accountant.ErrTrxInVertexAlreadyExists):
+		return "trxexists"
 	case errors.Is(err, accountant.ErrLeafValidationProcessStopped), errors.Is(err, accountant.ErrLeafBallanceCalculationProcessStopped):
 		return "stopped"
 	}
@@ -551,7 +556,14 @@ func (w *world) opProposePre(op ledgerOp) {
 	}
 	p := &pendingOp{kind: "P", node: op.N, t: op.T}
 	tc := *t
-	gated := w.startSplit(p, func() { p.vrx, p.err = n.ab.CreateLeaf(w.ctx, &tc) })
+	gated := w.startSplit(p, func() {
+		p.vrx, p.err = n.ab.CreateLeaf(w.ctx, &tc)
+		if p.err != nil && (errors.Is(p.err, accountant.ErrLeafRejected) || errors.Is(p.err, accountant.ErrTransferringFoundsFailure) ||
+			errors.Is(p.err, accountant.ErrDoubleSpending)) {
+			// CreateLeaf's own failures are ErrNewLeafRejected / ErrUnexpected; these classes come from validating a tip
+			p.err = errTipInvalid
+		}
+	})
 	if gated {
 		w.pending[op.K] = p
 		w.emit(event{"a": "ProposePre", "n": op.N, "t": op.T, "res": "pass", "k": op.K})
@@ -882,15 +894,15 @@ func (w *world) run(b *behaviour) {
 			case "commit":
 				w.opCommit(op)
 			case "propose":
-				op.K = -1
+				op.K = "seq"
 				w.opProposePre(op)
 				w.opCommit(op)
 			case "deliver":
-				op.K = -1
+				op.K = "seq"
 				w.opDeliverPre(op)
 				w.opCommit(op)
 			case "tick":
-				op.K = -1
+				op.K = "seq"
 				w.opTick(op)
 				w.opCommit(op)
 			case "tickpre":
@@ -911,6 +923,10 @@ func (w *world) run(b *behaviour) {
 				w.opTrust(op, false)
 			case "load":
 				w.opLoad(op)
+			case "compare":
+				if w.nodes[op.N] != nil && w.nodes[op.M] != nil {
+					w.emit(event{"a": "Compare", "n": op.N, "m": op.M})
+				}
 			default:
 				fatal("unknown op %q", op.Op)
 			}
@@ -958,6 +974,7 @@ func ledgerMain(args []string) {
 		}
 		w.run(&b)
 		w.close()
+		bw.Flush()
 		nb++
 	}
 	bw.Flush()
